@@ -1,7 +1,7 @@
 (* Property C08: the timeout bounds the run: at expiry everything is cancelled and the run fails.
    Only property theorems here. Model R; level 0 unless stated. *)
 From AJ Require Import Common.Util Run.RModel Run.RFacts Run.RFacts2 Run.RInv Run.RInv4 Run.RInv5 Run.RMon Run.RProps1
-  Run.RProps2 Run.RProps3 Props.RExample Run.RWin Run.RProps4 Run.RShut1 Run.RShut2 Run.RTime Run.RProps5.
+  Run.RProps2 Run.RProps3 Props.RExample Run.RWin Run.RProps4 Run.RShut1 Run.RShut2 Run.RTime Run.RProps5 Run.RUntime.
 
 (* a main wake that reports nothing is an expiry: it takes the timeout path *)
 Theorem C08_expiry_path : forall c n s, ph (Rn s n) = PMain ->
@@ -73,9 +73,28 @@ Theorem C08_bodies_on_time : forall lvl c h s j, wf c = true -> 2 <= lvl -> Reac
 Proof. intros lvl c h s j W Hl Hr. apply (t_job c s (InvT_reach lvl c h s W Hl Hr)). Qed.
 Print Assumptions C08_bodies_on_time.
 
-(* Not proved as a theorem: a timeout that is never reached changes nothing (a relational statement
-   between a tree with and without the timeout); acceptance at level 2 compares the timeout
-   argument of every asyncio.wait call and the instant of every clock jump with the model. *)
+(* a timeout that is never reached changes nothing: if the main loop of n always ends before its
+   expiration, the run is, event for event and instant for instant, a run of the same tree without
+   that timeout (only the timeout arguments of n's asyncio.wait calls differ).  Uses the
+   standard-library axiom functional_extensionality_dep (states contain functions). *)
+Theorem C08_unreached_timeout_changes_nothing : forall n lvl c h, 2 <= lvl -> wf c = true ->
+  unreached_along n lvl c init h -> accept lvl c h = true ->
+  accept lvl (untime_cfg n c) (map (untime_ev n) h) = true.
+Proof. exact untime_accept. Qed.
+Print Assumptions C08_unreached_timeout_changes_nothing.
+
+Theorem C08_untimed_step : forall n lvl c s e s', 2 <= lvl -> wf c = true ->
+  unreached n s -> unreached n s' -> step lvl c s e = Some s' ->
+  step lvl (untime_cfg n c) (untime_st n s) (untime_ev n e) = Some (untime_st n s').
+Proof. exact untime_step. Qed.
+Print Assumptions C08_untimed_step.
+
+(* the converse holds under two side conditions (the timeout arguments carried by the history are
+   the model's; no grace tick while n is still in its main loop) *)
+Theorem C08_untimed_iff_partial : forall n lvl c h, 2 <= lvl -> wf c = true -> conv_along n c init h ->
+  accept lvl (untime_cfg n c) (map (untime_ev n) h) = accept lvl c h.
+Proof. exact untime_accept_iff_partial. Qed.
+Print Assumptions C08_untimed_iff_partial.
 
 Example C08_nonvacuous :
   accept 3 ex_cfg ex_hist = true /\ j_timeout (jc ex_cfg 3) = Some 3%N /\
